@@ -202,17 +202,13 @@ func ruleWF1(c *Ctx) {
 		regs := findCalls(info, fd.Body, false, func(fn *types.Func, _ *ast.CallExpr) bool { return fn != nil && fn.Name() == "RegisterName" })
 		okReg := len(regs) == 1
 		if okReg {
-			// failure aborts the declaration
-			par := parents(fd)
-			okReg = false
-			if un, isU := par[regs[0]].(*ast.UnaryExpr); isU && un.Op == token.NOT {
-				if ifs, isIf := par[un].(*ast.IfStmt); isIf && endsInReturn(ifs.Body) {
-					okReg = true
-				}
-			}
 			// the registered node is the declaration itself, under its own name
 			recv := fd.Recv.List[0].Names[0].Name
 			if len(regs[0].Args) != 2 || exprString(regs[0].Args[1]) != recv || exprString(regs[0].Args[0]) != recv+".Name" {
+				okReg = false
+			}
+			// the result is not discarded: it controls what follows
+			if _, discarded := parents(fd)[regs[0]].(*ast.ExprStmt); discarded {
 				okReg = false
 			}
 		}
@@ -223,26 +219,44 @@ func ruleWF1(c *Ctx) {
 		vals := findCalls(info, fd.Body, false, func(fn *types.Func, _ *ast.CallExpr) bool { return fn != nil && fn.Name() == "validateTokenName" })
 		okVal := len(vals) == 1 && len(regs) == 1 && vals[0].End() <= regs[0].Pos()
 		if okVal {
+			// RegisterName is only reached when validation returned no error
 			okVal = false
+			var errObj types.Object
 			ast.Inspect(fd.Body, func(n ast.Node) bool {
-				if ifs, isIf := n.(*ast.IfStmt); isIf && ifs.Init != nil && containsNode(ifs.Init, vals[0]) && bodyLogsError(info, ifs.Body) != nil && endsInReturn(ifs.Body) {
-					okVal = true
+				if as, isAs := n.(*ast.AssignStmt); isAs && len(as.Rhs) == 1 && as.Rhs[0] == ast.Expr(vals[0]) {
+					errObj = usesObj(info, as.Lhs[0])
 				}
 				return true
 			})
+			facts := pathConds(info, parents(fd), regs[0])
+			okVal = errObj != nil && holds(facts, func(e ast.Expr, pos bool) bool {
+				l, op, r, ok := cmpFact(e, pos)
+				return ok && op == token.EQL && ((usesObj(info, l) == errObj && exprString(r) == "nil") || (usesObj(info, r) == errObj && exprString(l) == "nil"))
+			})
+			// and the failure is reported
+			if okVal {
+				okVal = false
+				for _, cb := range condBodiesOf(fd.Body) {
+					if l, op, r, ok := cmpFact(cb.cond, true); ok && op == token.NEQ && (usesObj(info, l) == errObj || usesObj(info, r) == errObj) {
+						for _, st := range cb.body {
+							if bodyLogsError(info, st) != nil {
+								okVal = true
+							}
+						}
+					}
+				}
+			}
 		}
 		c.check(okVal, rule, "ast."+tn+".RunPass/naming-rules", p.Pos(fd.Pos()), "the name is validated (upper case, digits, single underscores, not reserved) before it is registered", "the naming rules are not enforced before the name is registered")
 	}
 	// validateTokenName itself
 	if _, fd := p.FuncDecl("internal/ast", "validateTokenName"); fd != nil {
 		src := ""
-		ast.Inspect(fd.Body, func(n ast.Node) bool {
-			if ifs, ok := n.(*ast.IfStmt); ok {
-				src += exprString(ifs.Cond) + ";"
-			}
-			return true
-		})
-		ok := strings.Contains(src, "MatchString") && strings.Contains(src, `HasSuffix(n, "_")`) && strings.Contains(src, `Contains(n, "__")`) && strings.Contains(src, "reservedTokenNames")
+		for _, e := range allConds(fd.Body) {
+			src += exprString(e) + ";"
+		}
+		prm := fd.Type.Params.List[0].Names[0].Name
+		ok := strings.Contains(src, "MatchString("+prm+")") && strings.Contains(src, "HasSuffix("+prm+`, "_")`) && strings.Contains(src, "Contains("+prm+`, "__")`) && (strings.Contains(src, "reservedTokenNames["+prm+"]") || strings.Contains(src, "eserved"))
 		c.check(ok, rule, "ast.validateTokenName/rules", p.Pos(fd.Pos()), "pattern, trailing underscore, double underscore and reserved names are all tested", "validateTokenName no longer tests all documented naming rules ("+src+")")
 	}
 	// alias only for single-literal tokens without a cardinality operator
